@@ -563,6 +563,22 @@ func nativeEquivalent(s *collSpec, ls []layer) (prometheus.Collector, bool) {
 	return nc, true
 }
 
+// wrapPanics replays the wrapping of every descriptor in this goroutine: Registry.Register runs
+// Describe in a goroutine of its own, where a panic cannot be recovered.
+func wrapPanics(ds []*prometheus.Desc, ls []layer) (p bool) {
+	defer func() {
+		if recover() != nil {
+			p = true
+		}
+	}()
+	for _, d := range ds {
+		for _, l := range ls {
+			d = prometheus.VerifC13WrapDesc(d, l.prefix, l.labels)
+		}
+	}
+	return false
+}
+
 func safeRegister(reg prometheus.Registerer, c prometheus.Collector) (kind int, existing prometheus.Collector) {
 	defer func() {
 		if recover() != nil {
@@ -652,7 +668,9 @@ func regStream(c *cli.Ctx, r *emit.Rng, n int) error {
 					continue
 				}
 				var wres int
-				if viaRegisterer {
+				if wrapPanics(colls[ci].descs, ls) {
+					wres = 6
+				} else if viaRegisterer {
 					wres = safeUnregister(wrapRegisterer(reg, ls), colls[ci].c)
 				} else {
 					wres = safeUnregister(reg, wrapCollector(colls[ci].c, ls))
@@ -665,7 +683,9 @@ func regStream(c *cli.Ctx, r *emit.Rng, n int) error {
 			}
 			var wk int
 			var ex prometheus.Collector
-			if viaRegisterer {
+			if wrapPanics(colls[ci].descs, ls) {
+				wk = 6
+			} else if viaRegisterer {
 				wk, ex = safeRegister(wrapRegisterer(reg, ls), colls[ci].c)
 			} else {
 				wk, ex = safeRegister(reg, wrapCollector(colls[ci].c, ls))
@@ -806,9 +826,15 @@ func gatherStream(c *cli.Ctx, r *emit.Rng, n int) error {
 		f0, err := r0.Gather()
 		ok = ok && err == nil
 		r1 := prometheus.NewRegistry()
+		pedantic := r.Bool()
+		if pedantic { // also checks every collected metric's Desc() against the registered descriptors
+			r1 = prometheus.NewPedanticRegistry()
+		}
 		viaRegisterer := r.Bool()
 		var wk int
-		if viaRegisterer {
+		if wrapPanics(describeAll(col), ls) {
+			wk = 6
+		} else if viaRegisterer {
 			wk, _ = safeRegister(wrapRegisterer(r1, ls), col)
 		} else {
 			wk, _ = safeRegister(r1, wrapCollector(col, ls))
@@ -836,6 +862,9 @@ func gatherStream(c *cli.Ctx, r *emit.Rng, n int) error {
 		style := "gather:via-collector"
 		if viaRegisterer {
 			style = "gather:via-registerer"
+		}
+		if pedantic {
+			style += "+pedantic"
 		}
 		w.Add(emit.Tup("3", emLayers(ls), emFams(f0), emFams(f1), emFams(f2), emit.B(ok), emit.I(len(f3))),
 			len(f0) > 0, "gather:coll="+kind, style, fmt.Sprintf("gather:layers=%d", nl))
